@@ -1,4 +1,5 @@
 import H4.Slab
+import H4.SdPieces
 import H4.VarShape
 import H4.Gen.Fn.Putget
 import H4.Gen.Fn.Putget2
@@ -58,7 +59,9 @@ end GenSlab
     `varoffset <filetype> <shape> <xszof> <begin> <recsize> <coords>` => the `unsigned long` `NC_varoffset` returns (on the `dsizes`
     `NC_var_shape` computed for `<shape>`);
     `coordck <filetype> <x_op> <nc_api> <flags> <vp numrecs> <handle numrecs> <shape> <coords>` => `<TRUE/FALSE> <vp numrecs> <handle numrecs> <flags>`
-    after `NCcoordck` -/
+    after `NCcoordck`;
+    `fw <element size> <shape> <start> <stride> <count> <fill values are written: 0/1>` => `<position>:<length>,…` of the `Hwrite` calls of the FIRST
+    SDwritedata on a new fixed-size data set (`H4.SdPieces.firstWriteLog` with the piece size `H4.Gen.SdBuf.MAX_SIZE` of the current putget.c) -/
 def stepSd (args : List String) : String :=
   match args with
   | ["offs", sh, st, sd, ct] =>
@@ -92,6 +95,13 @@ def stepSd (args : List String) : String :=
       let m := VarShape.coordck ft (xop == H4.Gen.Ncvar.XDR_ENCODE) (ncapi != 0) flags vnum hnum shape coords
       GenSlab.coordck ft xop ncapi flags vnum hnum shape coords s!"{if m.ok then 1 else 0} {m.vpNumrecs} {m.hNumrecs} {m.flags}"
     | _, _, _, _, _, _, _, _ => "bad-op"
+  | ["fw", es, sh, st, sd, ct, fl] =>
+    match es.toNat?, natList sh, natList st, natList sd, natList ct, fl.toNat? with
+    | some esz, some shape, some start, some stride, some count, some fill =>
+      if shape.isEmpty || start.length != shape.length || stride.length != shape.length || count.length != shape.length then "bad-op" else
+      let log := H4.SdPieces.firstWriteLog H4.Gen.SdBuf.MAX_SIZE esz (fill != 0) shape start stride count
+      if log.isEmpty then "-" else ",".intercalate (log.map fun r => s!"{r.1}:{r.2}")
+    | _, _, _, _, _, _ => "bad-op"
   | _ => "bad-op"
 
 end H4.Driver
